@@ -209,7 +209,7 @@ func keys(m map[string]M) []string {
 	return out
 }
 
-var bodyFields = []string{"N", "S", "On", "L", "Dn"}
+var bodyFields = []string{"N", "S", "On", "L", "Dn", "U"}
 var formFields = []string{"A", "N", "L", "D", "Dn"}
 
 func emit(r *core.Run, mode string, into any) error {
@@ -509,7 +509,7 @@ func Prepare(r *core.Run, extra, race bool) (*Prepared, error) {
 		"Body": M{"type": "object", "required": []string{"n", "dn"}, "properties": orderedProps{{"n", M{"type": "integer"}}, {"s", M{"type": "string", "default": "sd"}},
 			{"on", M{"type": "string", "nullable": true}}, {"l", M{"type": "array", "items": M{"type": "integer"}}},
 			// required, nullable, null by default: the decoder starts from the default
-			{"dn", M{"type": "string", "nullable": true, "default": nil}}}},
+			{"dn", M{"type": "string", "nullable": true, "default": nil}}, {"u", M{"type": "integer", "format": "unix-seconds"}}}},
 		"R200": msg(), "E4": msg(), "ED": msg(),
 		"Form": M{"type": "object", "required": []string{"a"}, "properties": orderedProps{{"a", M{"type": "string"}}, {"n", M{"type": "integer"}},
 			{"l", M{"type": "array", "items": M{"type": "string"}}}, {"d", M{"type": "string", "default": "fd"}},
@@ -598,7 +598,7 @@ func Prepare(r *core.Run, extra, race bool) (*Prepared, error) {
 	}
 	// the same bodies while a second call goes through the same client between "request built"
 	// and "request sent" (made by the transport): what the first call delivers must not change
-	innerBody := M{"t": "obj", "m": []any{M{"t": "int", "n": 9}, strOf("zz"), strOf("q"), M{"t": "arr", "v": []any{M{"t": "int", "n": 8}, M{"t": "int", "n": 7}}}, strOf("w")}}
+	innerBody := M{"t": "obj", "m": []any{M{"t": "int", "n": 9}, strOf("zz"), strOf("q"), M{"t": "arr", "v": []any{M{"t": "int", "n": 8}, M{"t": "int", "n": 7}}}, strOf("w"), absent}}
 	for _, b := range bodies {
 		inner := dcall{Method: "Body", HasReq: true, Req: toGo(innerBody, bodyFields), Keys: [][]string{}}
 		calls = append(calls, dcall{Method: "Body", HasReq: true, Req: toGo(b.B, bodyFields), Keys: [][]string{}, Nested: &inner})
